@@ -1,27 +1,65 @@
-(* C51 — Full-text search matches the indexed words and stays in sync  (partial: see docs/C51.md).
+(* C51 — Full-text search matches the indexed words and stays in sync  (see docs/C51.md for what is not modelled).
    Only statements, each closed by [exact], each followed by Print Assumptions.
    The rune classifier, the UTF-8 length and the collation key are arbitrary (universally quantified). *)
 From Coq Require Import List NArith Bool QArith.
 Import ListNotations.
-From GMS Require Import Sys.Fulltext Sys.FulltextProofs.
+From GMS Require Import Sys.Fulltext Sys.FulltextProofs Sys.FulltextSync.
 Open Scope N_scope.
 
-(* over an index that is in sync with the table ([Inv]), the MATCH expression is true of a row exactly when the
-   row's document and the search string share a word under the parser's tokenization and the collation key *)
+(* [wfb rows]: a row hash or a key identifies the whole row (PRIMARY KEY uniqueness; key = hash for keyless tables; no
+   two different rows with the same hash).  Identical rows may occur any number of times.
+   [Inv2 rows s]: the row-count, doc-count and global-count tables of [s] are exactly those determined by the bag [rows].
+   [valid_hist [] ops]: every insert / update keeps [wfb] and only indexes words of at most 84 bytes, every delete /
+   update removes a row that is present. *)
+
+(* index_sync: after ANY valid history of inserts, deletes and updates - duplicate rows included - the index tables
+   are exactly those of the current rows *)
+Theorem C51_index_sync :
+  forall is_char rlen ckey ops, valid_hist is_char rlen ckey [] ops ->
+    wfb (fold_left apply_rows ops []) /\
+    Inv2 is_char rlen ckey (fold_left apply_rows ops []) (run_ops is_char rlen ckey ops).
+Proof. exact index_sync. Qed.
+Print Assumptions C51_index_sync.
+
+(* the single steps *)
+Theorem C51_insert_keeps_index_in_sync :
+  forall is_char rlen ckey rows s r,
+    Inv2 is_char rlen ckey rows s -> wfb (rows ++ [r]) -> all_short rlen (uwords is_char rlen ckey (rdoc r)) ->
+    Inv2 is_char rlen ckey (rows ++ [r]) (ft_insert is_char rlen ckey s r).
+Proof. exact insert_keeps_sync2. Qed.
+Print Assumptions C51_insert_keeps_index_in_sync.
+
+Theorem C51_delete_keeps_index_in_sync :
+  forall is_char rlen ckey rows s r,
+    Inv2 is_char rlen ckey rows s -> wfb rows -> In r rows ->
+    Inv2 is_char rlen ckey (remove_row r rows) (ft_delete is_char rlen ckey s r).
+Proof. exact delete_keeps_sync2. Qed.
+Print Assumptions C51_delete_keeps_index_in_sync.
+
+(* over an index in sync with the table, the MATCH expression is true of a row exactly when the row's document and
+   the search string share a word under the parser's tokenization and the collation key *)
 Theorem C51_match_iff_shared_word :
   forall is_char rlen ckey rows s q r,
-    Inv is_char rlen ckey rows s -> NoDup (map rk rows) -> In r rows ->
+    Inv2 is_char rlen ckey rows s -> wfb rows -> In r rows ->
     matches is_char rlen ckey s q r = shares_word is_char rlen ckey q r.
-Proof. exact matches_iff_shares_word. Qed.
+Proof. exact matches_iff_shares_word2. Qed.
 Print Assumptions C51_match_iff_shared_word.
+
+(* both halves: after any valid history MATCH is true of exactly the current rows sharing a word with the query *)
+Theorem C51_match_after_any_history :
+  forall is_char rlen ckey ops q r,
+    valid_hist is_char rlen ckey [] ops -> In r (fold_left apply_rows ops []) ->
+    matches is_char rlen ckey (run_ops is_char rlen ckey ops) q r = shares_word is_char rlen ckey q r.
+Proof. exact match_after_history. Qed.
+Print Assumptions C51_match_after_any_history.
 
 (* all contributing lookups of a synced index are in the range where the relevance formula is positive ... *)
 Theorem C51_contributions_in_range :
   forall is_char rlen ckey rows s q r,
-    Inv is_char rlen ckey rows s -> NoDup (map rk rows) -> NoDup (map rh rows) -> In r rows ->
+    Inv2 is_char rlen ckey rows s -> wfb rows -> In r rows ->
     Forall (fun c => let '(d, uw, g) := c in 1 <= d /\ 1 <= g <= N.of_nat (length rows))
            (contributions is_char rlen ckey s q r).
-Proof. exact contributions_in_range. Qed.
+Proof. exact contributions_in_range2. Qed.
 Print Assumptions C51_contributions_in_range.
 
 (* ... so for ANY contribution function that is positive on that range (the code's
@@ -33,25 +71,6 @@ Theorem C51_relevance_positive_iff_some_word_contributes :
       ((0 < relevance cf n cs)%Q <-> cs <> []).
 Proof. exact relevance_pos. Qed.
 Print Assumptions C51_relevance_positive_iff_some_word_contributes.
-
-(* index maintenance.  Proved: inserting a row whose hash and key are new keeps the three count tables equal
-   to their definition over the table's rows; hence an index built by inserting any rows is in sync.
-   NOT proved (tested only, see docs): the same for delete / update, and for keyless tables with duplicate rows. *)
-Theorem C51_insert_keeps_index_in_sync_partial :
-  forall is_char rlen ckey rows s r,
-    Inv is_char rlen ckey rows s -> ~ In (rh r) (map rh rows) -> ~ In (rk r) (map rk rows) ->
-    all_short rlen (uwords is_char rlen ckey (rdoc r)) ->
-    Inv is_char rlen ckey (rows ++ [r]) (ft_insert is_char rlen ckey s r).
-Proof. exact insert_keeps_sync. Qed.
-Print Assumptions C51_insert_keeps_index_in_sync_partial.
-
-Theorem C51_built_index_in_sync_partial :
-  forall is_char rlen ckey rows,
-    NoDup (map rh rows) -> NoDup (map rk rows) ->
-    (forall r, In r rows -> all_short rlen (uwords is_char rlen ckey (rdoc r))) ->
-    Inv is_char rlen ckey rows (fold_left (ft_insert is_char rlen ckey) rows empty_st).
-Proof. exact build_sync. Qed.
-Print Assumptions C51_built_index_in_sync_partial.
 
 (* the faithful model of the indexed filter returns a row once per matching query word *)
 Theorem C51_indexed_match_returns_duplicates_refuted :
@@ -69,6 +88,14 @@ Theorem C51_row_hash_collision_refuted :
   matches ascii_is_char ascii_rlen key_bin s q w_c2 = false.
 Proof. exact hash_collision_breaks_match. Qed.
 Print Assumptions C51_row_hash_collision_refuted.
+
+Example C51_history_nonvacuous :
+  valid_hist ascii_is_char ascii_rlen key_bin [] [OIns w_r1; OIns w_r1; ODel w_r1; OUpd w_r1 w_r2]
+  /\ fold_left apply_rows [OIns w_r1; OIns w_r1; ODel w_r1; OUpd w_r1 w_r2] [] = [w_r2]
+  /\ matches ascii_is_char ascii_rlen key_bin
+       (run_ops ascii_is_char ascii_rlen key_bin [OIns w_r1; OIns w_r1; ODel w_r1; OUpd w_r1 w_r2]) [103;97;109;109;97] w_r2 = true.
+Proof. exact sync_nonvacuous. Qed.
+Print Assumptions C51_history_nonvacuous.
 
 Example C51_nonvacuous :
   map fst (tokenize ascii_is_char ascii_rlen [68;111;110;39;116;32;97;98;32;115;116;111;112;39;39;120;95;49])
